@@ -341,3 +341,121 @@ func init() {
 		return runC06(c)
 	}
 }
+
+// Stateful use of the quorum functions: ONE committee slice object whose weights are refreshed in place between calls (a consumer
+// Membership that reuses its buffer from height to height), interleaved with calls on other committees. Whatever the package
+// remembers between calls must not change a result: every call is compared with the reference evaluated on the current values.
+type c06SeqOp struct {
+	K       string   `json:"k"` // set (rewrite the shared slice's weights in place) | check (on the shared slice) | other (a check on a fresh committee)
+	Weights []uint64 `json:"weights,omitempty"`
+	A       []int    `json:"a,omitempty"`
+}
+
+type c06SeqCase struct {
+	N   int        `json:"n"`
+	Ops []c06SeqOp `json:"ops"`
+}
+
+func runC06Seq(c c06SeqCase) *ev.Violation {
+	viol := func(kind, format string, a ...interface{}) *ev.Violation {
+		return &ev.Violation{Property: "C06", Kind: kind, Detail: fmt.Sprintf(format, a...), Replayer: "C06seq", Case: c}
+	}
+	shared := c06Committee(make([]uint64, c.N))
+	for i := range shared {
+		shared[i].Weight = 1
+	}
+	check := func(step int, com []interfaces.CommitteeMember, a []int) *ev.Violation {
+		if ref.Total(com).BitLen() > 64 || ref.Total(com).Sign() == 0 {
+			return nil
+		}
+		A := idsOf(a)
+		q, w, _ := quorum.IsQuorum(A, com)
+		h, _, _ := quorum.HasHonest(A, com)
+		if q != ref.IsQuorum(A, com) || h != ref.HasHonest(A, com) || bigU(w).Cmp(ref.Weight(A, com)) != 0 {
+			return viol("stateful-result-differs", "step %d: IsQuorum=%v HasHonest=%v weight=%d, reference on the committee's current weights: %v %v %s (Q=%s f=%s)", step, q, h, w, ref.IsQuorum(A, com), ref.HasHonest(A, com), ref.Weight(A, com), ref.Q(com), ref.F(com))
+		}
+		ws := quorum.GetWeights(com)
+		if bigU(quorum.CalcQuorumWeight(ws)).Cmp(ref.Q(com)) != 0 || bigU(quorum.CalcByzMaxWeight(ws)).Cmp(ref.F(com)) != 0 {
+			return viol("stateful-threshold-differs", "step %d: thresholds differ from the reference on the committee's current weights", step)
+		}
+		return nil
+	}
+	for i, op := range c.Ops {
+		switch op.K {
+		case "set":
+			for j := range shared {
+				if j < len(op.Weights) {
+					shared[j].Weight = primitives.MemberWeight(op.Weights[j])
+				}
+			}
+		case "check":
+			if v := check(i, shared, op.A); v != nil {
+				return v
+			}
+		case "other":
+			if v := check(i, c06Committee(op.Weights), op.A); v != nil {
+				return v
+			}
+		}
+	}
+	return nil
+}
+
+func TestC06Stateful(t *testing.T) {
+	col := ev.Get("C06")
+	rapid.Check(t, func(t *rapid.T) {
+		n := rapid.IntRange(4, 8).Draw(t, "n")
+		c := c06SeqCase{N: n}
+		drawWs := func(k int) []uint64 {
+			ws := make([]uint64, k)
+			cls := rapid.IntRange(0, 3).Draw(t, "wclass")
+			for i := range ws {
+				switch cls {
+				case 0:
+					ws[i] = 1
+				case 1:
+					ws[i] = uint64(rapid.IntRange(0, 10).Draw(t, "w"))
+				case 2:
+					ws[i] = uint64(rapid.IntRange(1, 4).Draw(t, "w")) << 58
+				default:
+					ws[i] = uint64(rapid.IntRange(1, 3).Draw(t, "w"))
+				}
+			}
+			return ws
+		}
+		sets := 0
+		for i := rapid.IntRange(3, 12).Draw(t, "nops"); i > 0; i-- {
+			switch rapid.IntRange(0, 4).Draw(t, "op") {
+			case 0, 1:
+				c.Ops = append(c.Ops, c06SeqOp{K: "set", Weights: drawWs(n)})
+				sets++
+			case 2, 3:
+				c.Ops = append(c.Ops, c06SeqOp{K: "check", A: drawIdxList(t, n, "a")})
+			case 4:
+				k := rapid.IntRange(4, 8).Draw(t, "othern")
+				c.Ops = append(c.Ops, c06SeqOp{K: "other", Weights: drawWs(k), A: drawIdxList(t, k, "oa")})
+			}
+		}
+		col.Case()
+		col.Class("stateful:same-slice-refreshed-in-place")
+		if sets >= 2 {
+			b, _ := json.Marshal(c)
+			col.NonTrivial(string(b))
+		}
+		if v := runC06Seq(c); v != nil {
+			if msg := ev.Report(v); msg != "" {
+				t.Fatal(msg)
+			}
+		}
+	})
+}
+
+func init() {
+	replayers["C06seq"] = func(raw json.RawMessage) *ev.Violation {
+		var c c06SeqCase
+		if err := json.Unmarshal(raw, &c); err != nil {
+			return &ev.Violation{Property: "C06", Kind: "bad-replay-file", Detail: err.Error()}
+		}
+		return runC06Seq(c)
+	}
+}
